@@ -260,26 +260,47 @@ class Roles:
                         return 'store'
         if all(t[0] == 'unknown' for t in ev.info.get('targets', ())) and isinstance(c, ast.Call):
             ft = sym.term(self.p, c.func, ev.inst)
-            # callback = getattr(mgr, event_name) with mgr an element of the event managers
-            if isinstance(ft, tuple) and ft[0] == 'call' and ft[1] == 'ext:builtins.getattr':
+            if self._is_hook_term(ft):
                 return 'event'
-            # ... or an element of what an in-repo generator yields, every yield being such a getattr(...)
-            if isinstance(ft, tuple) and ft[0] == 'elem' and isinstance(ft[1], tuple) and ft[1] and ft[1][0] == 'call' \
-                    and isinstance(ft[1][1], str) and ft[1][1] in self.p.functions:
-                gen = self.p.functions[ft[1][1]]
-                genv = FuncEnv.of(self.p, gen)
-                yields = [n for n in genv.own_nodes() if isinstance(n, ast.Yield) and n.value is not None]
-
-                def is_getattr(e, depth=0) -> bool:
-                    if isinstance(e, ast.Call) and isinstance(e.func, ast.Name) and e.func.id == 'getattr':
-                        return True
-                    if isinstance(e, ast.Name) and depth < 2:
-                        defs = genv.local_defs().get(e.id, [])
-                        return bool(defs) and all(d[0] == 'assign' and is_getattr(d[1], depth + 1) for d in defs)
-                    return False
-                if yields and all(is_getattr(y.value) for y in yields):
-                    return 'event'
         return None
+
+    def _is_hook_term(self, ft, depth: int = 0) -> bool:
+        """The called value is a hook looked up on an event manager: `getattr(mgr, event_name[, None])` itself, that look-up
+        combined with None (`... or None`, a conditional expression), what an in-repo helper returns or an in-repo generator
+        yields when every returned / yielded value is such a look-up."""
+        if not isinstance(ft, tuple) or not ft or depth > 4:
+            return False
+        if ft[0] == 'call' and ft[1] == 'ext:builtins.getattr':
+            return True
+        if ft[0] in ('or', 'and'):
+            parts = [x for x in ft[1] if x != ('const', None)]
+            return bool(parts) and all(self._is_hook_term(x, depth + 1) for x in parts)
+        if ft[0] == 'ifexp':
+            parts = [x for x in (ft[2], ft[3]) if x != ('const', None)]
+            return bool(parts) and all(self._is_hook_term(x, depth + 1) for x in parts)
+        inner = ft[1] if ft[0] == 'elem' and isinstance(ft[1], tuple) else ft
+        if inner and inner[0] == 'call' and isinstance(inner[1], str) and inner[1] in self.p.functions:
+            fn = self.p.functions[inner[1]]
+            fenv = FuncEnv.of(self.p, fn)
+            want = ast.Yield if ft[0] == 'elem' else ast.Return
+            outs = [n for n in fenv.own_nodes() if isinstance(n, want) and n.value is not None
+                    and not (isinstance(n.value, ast.Constant) and n.value.value is None)]
+
+            def is_lookup(e, d=0) -> bool:
+                if isinstance(e, ast.Call) and isinstance(e.func, ast.Name) and e.func.id == 'getattr':
+                    return True
+                if isinstance(e, ast.BoolOp):
+                    vals = [v for v in e.values if not (isinstance(v, ast.Constant) and v.value is None)]
+                    return bool(vals) and all(is_lookup(v, d) for v in vals)
+                if isinstance(e, ast.IfExp):
+                    vals = [v for v in (e.body, e.orelse) if not (isinstance(v, ast.Constant) and v.value is None)]
+                    return bool(vals) and all(is_lookup(v, d) for v in vals)
+                if isinstance(e, ast.Name) and d < 2:
+                    defs = fenv.local_defs().get(e.id, [])
+                    return bool(defs) and all(x[0] == 'assign' and is_lookup(x[1], d + 1) for x in defs)
+                return False
+            return bool(outs) and all(is_lookup(o.value) for o in outs)
+        return False
 
     def foreign(self, ev: Ev) -> Optional[str]:
         b = self.body(ev)
